@@ -255,7 +255,14 @@ impl<'a> Gen<'a> {
             3 => {
                 // error coalescing
                 self.stats.push("coalesce");
-                format!("({} ?? {})", self.fallible(ty, d), self.expr(ty, d))
+                if ty == Ty::Any && self.rng.chance(1, 3) {
+                    // a left operand that SUCCEEDS with null (or false): `??` must not look at the value
+                    self.stats.push("coalesce_null_lhs");
+                    let v = *self.rng.pick(&["null", "false", "null"]);
+                    format!("({{ {}; {v} }} ?? {})", self.fallible(ty, d), self.expr(ty, d))
+                } else {
+                    format!("({} ?? {})", self.fallible(ty, d), self.expr(ty, d))
+                }
             }
             4 => {
                 self.stats.push("coalesce_chain");
